@@ -4,6 +4,7 @@ set -e
 d=$1
 git -C /repo worktree add -q "$d" HEAD
 rsync -a --exclude .git --exclude '*.o' --exclude '*.lo' --exclude '.libs' --exclude '*.la' --exclude '*.log' --exclude '*.trs' /repo/ "$d"/
+git -C "$d" checkout -q -- .    # /repo may carry an applied seed at this moment: tracked files come from HEAD, only the build system from the copy
 sed -i "s|/repo|$d|g" "$d/Makefile" "$d/config.status" 2>/dev/null || true
 (cd "$d" && make -j8 >/dev/null 2>&1 && make check 2>&1 | grep -E "^# (PASS|FAIL)" | tr '\n' ' ')
 echo " worktree $d ready"
